@@ -217,3 +217,6 @@ def r7(ctx):
     from . import c04, c03
     ctx.sub(c04.r5, only=("mrfs",))     # markov_random_fields[k] = state.clusters[k].train_inverse
     ctx.sub(r3, only=("refresh:source",))  # ... and the kernel's precision matrix is that same train_inverse
+    # ... and nothing refits the clusters between the last scoring pass and the result (the cached precision would be another fit's)
+    from . import c09
+    c09.lifecycle(ctx, {"nothing-after-relabel"})
